@@ -45,6 +45,13 @@ static std::vector<std::pair<rp::Frame, bool>> corpus() {   // (frame, memory wi
         v.push_back({rp::make_response(true, wq, rp::C_ERANGE, w16, {}, 0x1001), (bool)w16});
         v.push_back({rp::make_response(true, wq, rp::C_EBUSY, w16, {}, 0), (bool)w16});
     }
+    // frames whose true checksums are the "magic" values: an all-zero payload has payload CRC 0x0000; sequence numbers chosen so that the header CRC is 0x0000 / 0xffff
+    v.push_back({rp::make_request(true, true, false, 0x0101, 0x2000, 4, Bytes(4, 0x00)), false});
+    for (int want : {0x0000, 0xffff}) for (uint32_t sq = 0; sq < 65536; sq++) {
+        rp::Frame f = rp::make_request(true, false, true, (uint16_t)sq, 0x3000, 2, {});
+        Bytes e = rp::encode(f);
+        if (((e[12] << 8) | e[13]) == want) { v.push_back({f, true}); break; }
+    }
     v.push_back({rp::make_meta(true, 1), false});
     v.push_back({rp::make_meta(true, 2), true});
     return v;
@@ -110,6 +117,11 @@ static void run() {
             f.payload.resize((size_t)plen); for (auto &b : f.payload) b = rng.byte();
             rp::Damage dm; dm.bad_hdcrc = badh; dm.bad_plcrc = badp;
             run_case({(bool)serial, (bool)mem16, false, rp::encode(f, dm)}, "option-combination");
+            // checksum fields holding the values a shortcut might read as "no checksum": 0x0000 and 0xffff
+            if (delta == 0 && !badh && !badp) for (int which = 0; which < 2; which++) for (int val : {0x0000, 0xffff}) {
+                rp::Damage dz; (which ? dz.force_plcrc : dz.force_hdcrc) = val;
+                run_case({(bool)serial, (bool)mem16, false, rp::encode(f, dz)}, "checksum-field-0000-or-ffff");
+            }
         }
     // frames with payloads across 2^16 words / octets (a checksum or size computed with a 16-bit count shows here)
     for (int serial = 0; serial < 2; serial++) for (int w16 = 0; w16 < 2; w16++) for (uint32_t n : {65535u, 65536u, 65537u, 65560u}) {
